@@ -278,7 +278,7 @@ Definition e_open_position (w : world) (trader vamm : addr) (s : side) (margin_a
   do mr <- cdiv dd leverage;
   do _ <- require_additional_margin (spos mr) (e_init c);
   let p := get_position (w_eng w) (w_env w) vamm trader s in
-  let is_increase := (dir_eqb (p_dir p) AddToAmm && side_eqb s Buy) || (dir_eqb (p_dir p) RemoveFromAmm && side_eqb s Sell) in
+  let is_increase := s_is_zero (p_size p) || (dir_eqb (p_dir p) AddToAmm && side_eqb s Buy) || (dir_eqb (p_dir p) RemoveFromAmm && side_eqb s Sell) in
   do on1 <- cmul margin_amount leverage;
   do open_notional <- cdiv on1 (e_dec c);
   do np <- get_pnl w vamm p PSpot;
